@@ -59,19 +59,19 @@ def run(c):
     # tag, cfg, replay env, alloc?
     runs = [
         ("dmg4", cfg_mc(M, "{0, 1, 2}", "{1, 2}", 4, 1, 0, True),
-         dict(WAL_STRIDE=1 if th else 10, WAL_EXH=25 if th else 8), True),
+         dict(WAL_STRIDE=1 if th else 12, WAL_EXH=20 if th else 8), True),
         ("post", cfg_mc(M, "{0, 1}", "{1}", 3 if not th else 4, 1, 2, False, dp=True),
-         dict(WAL_STRIDE=2 if th else 3, WAL_EXH=10), False),
+         dict(WAL_STRIDE=2 if th else 4, WAL_EXH=10), False),
         ("huge", cfg_mc(MH, "{0, 1}", "{0, 1}", 3, 0, 0, True), dict(WAL_STRIDE=1), False),
         # total size limit: oldest files removed (sizes 2 and 3 records), then reads / searches / restart
-        ("prune", cfg_mc(M, "{0, 1}", "{1}", 5, 0, 0, False, tlimits="{2, 3}"), dict(WAL_STRIDE=1 if th else 4), False),
+        ("prune", cfg_mc(M, "{0, 1}", "{1}", 5, 0, 0, False, tlimits="{2, 3}"), dict(WAL_STRIDE=1 if th else 6), False),
         # seven one-record files: the four-files-per-check bound of checkTotalSizeLimit
         ("prune7", cfg_mc("{}", "{0}", "{1}", 7, 0, 0, False, tlimits="{1, 2}"), dict(WAL_STRIDE=1), False),
     ]
     if th:
         runs += [
-            ("rec5", cfg_mc(M, "{0, 1, 2}", "{1, 2}", 5, 1, 0, False), dict(WAL_STRIDE=5, WAL_EXH=5), False),
-            ("rec6", cfg_mc(M, "{0, 1}", "{2}", 6, 1, 0, False), dict(WAL_STRIDE=4, WAL_EXH=5), False),
+            ("rec5", cfg_mc(M, "{0, 1, 2}", "{1, 2}", 5, 1, 0, False), dict(WAL_STRIDE=7, WAL_EXH=5), False),
+            ("rec6", cfg_mc(M, "{0, 1}", "{2}", 6, 1, 0, False), dict(WAL_STRIDE=5, WAL_EXH=5), False),
             ("dmg2", cfg_mc(M, "{0, 1}", "{1}", 3, 2, 0, False, dp=True), dict(WAL_STRIDE=3, WAL_EXH=5), False),
             ("kinds", cfg_mc('{"rs", "to", "prop", "part", "vote"}', "{1}", "{1}", 3, 0, 0, False), dict(WAL_STRIDE=1), False),
         ]
